@@ -41,7 +41,8 @@ VARIABLES sc, ph, annSeen, fnAnnSeen, ignSeen, diags
 vars == <<sc, ph, annSeen, fnAnnSeen, ignSeen, diags>>
 
 Classes == {"sibling", "test", "xtest", "tdpath", "genpath", "genfile", "genfirst", "gentest"}
-PathSets == {{}, {"testdata"}, {"zzgen"}, {"testdata", "zzgen"}, {"zzgen", "zzgenerated"}, {"zzgenerated"}}
+PathSets == {{}, {"testdata"}, {"zzgen"}, {"testdata", "zzgen"}, {"zzgen", "zzgenerated"}, {"zzgenerated"}, {"zzgen/q"}}
+\* zzgen/q spans the boundary between a directory and a file name: it matches zzgen/q.go (class genpath) only
 \* zzgenerated matches no file of the scenarios; next to zzgen it is a longer entry that *contains* the shorter one
 
 Valid(s) == /\ (s.ann => s.cls \in {"sibling", "tdpath", "genpath", "genfile", "genfirst"})
@@ -54,6 +55,7 @@ IsTest(cls) == cls \in {"test", "xtest", "gentest"}
 Skip == \/ IsTest(sc.cls) /\ ~sc.scan
         \/ sc.cls = "tdpath" /\ "testdata" \in sc.paths
         \/ sc.cls \in {"genpath", "genfile", "genfirst", "gentest"} /\ "zzgen" \in sc.paths
+        \/ sc.cls = "genpath" /\ "zzgen/q" \in sc.paths
 
 (* L1 *)
 Expected == {"A1", "A4"}
